@@ -16,6 +16,7 @@
    there, later cells widen that table) is modelled and checked against the
    code by the correspondence, but is not claimed. *)
 From Tab Require Import Base.Ops Model.Core Spec.History Proofs.CoreInv Proofs.CoreSim Proofs.CoreObs.
+From Tab Require Import Model.CoreSegs Spec.HistorySegs Proofs.CoreSegsProofs.
 
 (* The invariant over all well-formed histories: the row list is the attach
    order (each row with exactly the items added to it so far, before or after
@@ -132,6 +133,43 @@ Theorem c02_dump_last_expected : forall h : list (op N), wf_hist h -> model_dump
 Proof. exact model_dump_last_expected. Qed.
 Print Assumptions c02_dump_last_expected.
 
+(* Building calls made from INSIDE a building call (an add-time callback which
+   appends a cell to the row being added, adds a separator, ...) are calls of
+   the history like any other, listed where they were made; the table can then
+   only be looked at after every SEGMENT of the history (one call of the
+   program with everything its callbacks did, Spec/HistorySegs.v).  The dumps
+   taken there are, on the model, exactly the expected ones - so every theorem
+   above speaks for tables built with such callbacks: it is quantified over
+   all well-formed histories, whoever made the calls. *)
+Theorem c02_dump_segs_expected : forall (h : list (op N)) (ns : list nat), wf_hist h ->
+  model_dump_segs h ns = spec_dump_segs h ns.
+Proof. exact model_dump_segs_expected. Qed.
+Print Assumptions c02_dump_segs_expected.
+
+(* The one building call which no op names: Row.Add on the HEADER row, which
+   AddHeaders hands to the table's add-time row callbacks (Model/CoreSegs.v
+   header_add).  On the row that is the header now it is AddHeaders with one
+   more item - a history every theorem above covers. *)
+Theorem c02_header_row_add : forall (A : Type) (h : list (op A)) cs x, wf_hist h ->
+  t_header (run h) = Some cs ->
+  header_add (run h) x = run (h ++ [AddHeaders (map c_item cs ++ [x])])
+  /\ wf_hist (h ++ [AddHeaders (map c_item cs ++ [x])]).
+Proof. exact (fun A h cs x W E => conj (@core_header_row_add A h cs x W E) (@wf_add_headers A h _ W)). Qed.
+Print Assumptions c02_header_row_add.
+
+(* ... and on a header row of n cells which a later AddHeaders has replaced it
+   only makes sure that the table has n+1 columns: AddHeaders with n+1 items
+   followed by AddHeaders with the current ones. *)
+Theorem c02_stale_header_row_add : forall (A : Type) (h : list (op A)) cs ys n, wf_hist h ->
+  t_header (run h) = Some cs -> length ys = S n ->
+  stale_header_add (run h) n = run (h ++ [AddHeaders ys; AddHeaders (map c_item cs)])
+  /\ wf_hist ((h ++ [AddHeaders ys]) ++ [AddHeaders (map c_item cs)]).
+Proof.
+  exact (fun A h cs ys n W E L => conj (@core_stale_header_row_add A h cs ys n W E L)
+                                       (@wf_add_headers A _ _ (@wf_add_headers A h ys W))).
+Qed.
+Print Assumptions c02_stale_header_row_add.
+
 (* non-vacuity: the D2 history, a separator, a pre-built row attached late, a
    header added after the rows *)
 Example c02_example :
@@ -159,6 +197,25 @@ Example c02_example_two_tables :
   /\ nrows (run h) = 2 /\ ncols (run h) = 3
   /\ map row_location (all_rows (run h)) = [(1, 0); (2, 0)]
   /\ cell_at (run h) 2 3 = Ok (2, mkCell 9%N 3).
+Proof.
+  cbv zeta. split; [apply wf_histb_sound; vm_compute; reflexivity|].
+  repeat split; vm_compute; reflexivity.
+Qed.
+
+(* a table whose add-time row callback appends a "total" cell to every body
+   row: t.AddHeaders(1,2); t.AddRowItems(3,4) [callback: row.Add(101)];
+   t.AddSeparator(); t.AddRowItems(5) [callback: row.Add(102)] - four calls of
+   the program, six building calls *)
+Example c02_example_nested_calls :
+  let h : list (op N) :=
+    [AddHeaders [1%N; 2%N]; AddRowItems [3%N; 4%N]; RowAdd (RIdx 0) 101%N; AddSeparator;
+     AddRowItems [5%N]; RowAdd (RIdx 2) 102%N] in
+  wf_hist h
+  /\ nrows (run h) = 3 /\ ncols (run h) = 3
+  /\ column_exists (run h) 3 = Ok true /\ column_exists (run h) 4 = Ok false
+  /\ cell_at (run h) 1 3 = Ok (1, mkCell 101%N 3)
+  /\ model_dump_segs h [1; 2; 1; 2] = spec_dump_segs h [1; 2; 1; 2]
+  /\ length (trace_segs init h [1; 2; 1; 2]) = 4.
 Proof.
   cbv zeta. split; [apply wf_histb_sound; vm_compute; reflexivity|].
   repeat split; vm_compute; reflexivity.
